@@ -97,7 +97,7 @@ def r19_1(ctx: Ctx, rep: Report) -> None:
     up = ctx.func("Ace.ungroup_ports")
     from .normalise import normalised as _norm
 
-    fwd = _norm(ctx, ctx.func("Port._items_to_ports"), "unroll,beta")
+    fwd = _norm(ctx, ctx.func("Port._items_to_ports"), "dispatch,unroll,beta")
     operators = list(ctx.folder.const("helpers", "OPERATORS"))
     fpaths = op_paths(ctx, fwd, operators)
     kind: Dict[str, str] = {}
@@ -137,6 +137,8 @@ def r19_1(ctx: Ctx, rep: Report) -> None:
                     where(sf, node),
                     inp=f"permit tcp any any {op} 3 4  ->  {op} 3 + {op} 4 (union = all ports)",
                 )
+            elif k in ("UNKNOWN", "?"):
+                rep.note(f"R19.1 not judged for {op!r} ({side} site): the port set Port._items_to_ports builds for it is not in a form this rule reads (R08.2 reports that)")
             else:
                 rep.violation(
                     "Ace.ungroup_ports",
@@ -476,12 +478,15 @@ def splice_rule(ctx: Ctx, rep: Report, q: str, rid: str = "R19.4") -> None:  # n
     # `x = A if C else B` is two paths; a loop shared by both containers (a helper with a `nested` switch) is read in place
     f = _norm(ctx, ctx.func(q), "valuecalls,ifexp")
     cfg = ctx.cfg(f)
-    loops = [n for n in cfg.live if n.kind == "for" and src(n.ast.iter) in ("self._items", "self.items")]
+    own_list = ("self._items", "self.items", "list(self._items)", "list(self.items)", "tuple(self._items)", "self._items[:]")
+    # `members = self._items` (one binding) and the loop over `members`
+    alias = {t.id for a in own_nodes(f.node) if isinstance(a, ast.Assign) and len(a.targets) == 1 and isinstance(a.targets[0], ast.Name) and src(a.value) in own_list for t in [a.targets[0]] if sum(1 for z in own_nodes(f.node) if isinstance(z, ast.Name) and z.id == t.id and isinstance(z.ctx, ast.Store)) == 1}
+    loops = [n for n in cfg.live if n.kind == "for" and (src(n.ast.iter) in own_list or (isinstance(n.ast.iter, ast.Name) and n.ast.iter.id in alias))]
     rep.instance()
     if not loops and _flat_map_splice(ctx, rep, f, q):
         return
     if not loops:
-        rep.violation(q, "loop over self._items", "the splice loop vanished", where(f))
+        rep.violation(q, "loop over self._items", "the split does not walk the object's own member list (no loop over self._items): the members - the blocks of a grouped ACL among them - are not carried over as the objects they are", where(f))
         return
     lp = loops[0]
     var = src(lp.ast.target)
